@@ -247,6 +247,9 @@ WarningsAreInert   == (phase = "Exit" /\ ~envfault) =>
 ErrorsAlwaysShown  == NErr(shown) = NErr(issued)
 Outcome == OutcomeOf(exit, NErr(issued), NErr(shown))
 OutcomeAutomaton   == (phase = "Exit" /\ ~envfault) => Outcome \in GoodOutcomes
+(* holds in EVERY run, environment faults included: an issued error fails the run and is shown (an unwritable directive
+   output is reported through the same latch as any other error) *)
+ReportedErrorFails == phase = "Exit" => (NErr(issued) >= 1 => (exit # 0 /\ NErr(shown) >= 1))
 Balanced           == phase = "Exit" => handlers = <<>>
 (* a critical diagnostic is the last one of its run; an error does not stop the later passes *)
 CriticalIsLast     == \A i \in 1..Len(issued) : issued[i] = "critical" => i = Len(issued)
